@@ -21,6 +21,40 @@ type SpecEnv struct {
 	resolve func(name string) *Val
 	errs    *[]string
 	depth   int
+	iterElem func(j string) string // elem(j) inside an iterator invariant
+	iterCount string
+	bound    map[string]string // bound variables in scope (SMT name -> sort)
+	callArgs []*Val            // arg(i) inside an "at <callee> n" block
+	atCallSite bool            // a callee's contract instantiated at a call: res() of the callee's own calls is unknown
+	skip     *bool             // set when the clause cannot be expressed in this context
+}
+
+// typed records the type invariant (integer range, slice shape) of a value read from the heap.
+func (e *SpecEnv) typed(v *Val) *Val {
+	if v == nil || v.T == nil || v.S == "" || e.fr.dry {
+		return v
+	}
+	f := and(e.fr.u.rangeFormula(v.S, v.T, 0), e.fr.u.allocFormula(v.S, v.T, e.cur))
+	if f == "true" {
+		return v
+	}
+	if strings.Contains(v.S, "q!") {
+		// typing axiom for this shape of heap read, for all values of the bound variables it mentions
+		var binders []string
+		for bv, so := range e.bound {
+			if containsIdent(f, bv) {
+				binders = append(binders, "("+bv+" "+so+")")
+			}
+		}
+		if len(binders) == 0 {
+			return v
+		}
+		sortStrings(binders)
+		e.fr.u.assertOnce(fmt.Sprintf("(forall (%s) (! %s :pattern (%s)))", strings.Join(binders, " "), f, v.S))
+		return v
+	}
+	e.fr.u.assertOnce(f)
+	return v
 }
 
 var mathInt = types.Typ[types.UntypedInt]
@@ -216,7 +250,7 @@ func (e *SpecEnv) eval(x ast.Expr) *Val {
 		return e.fail("unsupported unary %s", x.Op)
 	case *ast.StarExpr:
 		v := e.eval(x.X)
-		return e.fr.load(e.cur, e.fr.placeOf(v))
+		return e.typed(e.fr.load(e.cur, e.fr.placeOf(v)))
 	case *ast.BinaryExpr:
 		return e.binary(x)
 	case *ast.SelectorExpr:
@@ -314,11 +348,7 @@ func (e *SpecEnv) selectField(v *Val, name string) *Val {
 		// keep it as a place so that further selection / address-of works; materialise by load
 		lv := e.fr.load(e.cur, npl)
 		lv.T = ft
-		if isStructVal(ft) {
-			// allow nested selection on struct-valued fields through the loaded value
-			return lv
-		}
-		return lv
+		return e.typed(lv)
 	}
 	so := u.S.sortOf(stT)
 	return &Val{T: ft, S: app(u.S.selName(so, idx), v.S)}
@@ -332,9 +362,9 @@ func (e *SpecEnv) index(v, i *Val) *Val {
 	switch t := types.Unalias(v.T).Underlying().(type) {
 	case *types.Slice:
 		pl := &Place{Base: app("sl_arr", v.S), BaseT: t.Elem(), Elem: true, Idx: "(+ (sl_off " + v.S + ") " + i.S + ")"}
-		return e.fr.load(e.cur, pl)
+		return e.typed(e.fr.load(e.cur, pl))
 	case *types.Map:
-		return &Val{T: t.Elem(), S: u.mapVal(e.cur, t, v.S, i.S)}
+		return e.typed(&Val{T: t.Elem(), S: u.mapVal(e.cur, t, v.S, i.S)})
 	}
 	return e.fail("index on unsupported type %s", v.T)
 }
@@ -445,12 +475,53 @@ func (e *SpecEnv) call(x *ast.CallExpr) *Val {
 		return &Val{T: boolT, S: "(< " + e.fr.termOf(arg(0)) + " WM@0)"}
 	case "forall", "exists":
 		return e.quant(fname, x)
+	case "elem":
+		if e.iterElem == nil || len(x.Args) != 1 {
+			return e.fail("elem() is only available in iterator invariants")
+		}
+		return &Val{T: mathInt, S: e.iterElem(arg(0).S), Math: true}
+	case "count":
+		if e.iterCount == "" {
+			return e.fail("count() is only available in iterator invariants")
+		}
+		return &Val{T: mathInt, S: e.iterCount, Math: true}
+	case "bfCount":
+		v := arg(0)
+		e.fr.u.declareBitfieldGhost(e.sortOfVal(v))
+		return &Val{T: mathInt, S: app("bf_count", v.S), Math: true}
+	case "bfBit":
+		v := arg(0)
+		e.fr.u.declareBitfieldGhost(e.sortOfVal(v))
+		return &Val{T: mathInt, S: app("bf_bit", v.S, arg(1).S), Math: true}
+	case "arg":
+		if lit, ok := x.Args[0].(*ast.BasicLit); ok && e.callArgs != nil {
+			var i int
+			fmt.Sscanf(lit.Value, "%d", &i)
+			if i < len(e.callArgs) {
+				return e.callArgs[i]
+			}
+		}
+		return e.fail("arg(): no such argument")
 	case "res":
 		// res(Callee, n): result of the n-th call of Callee in the function under contract
-		if len(x.Args) == 2 && e.fr.callResults != nil {
+		if e.atCallSite {
+			if e.skip != nil {
+				*e.skip = true
+			}
+			return &Val{T: mathInt, S: "0", Math: true}
+		}
+		if len(x.Args) >= 2 && e.fr.callResults != nil {
 			key := exprText(x.Args[0]) + "#" + exprText2(x.Args[1])
 			if v, ok := e.fr.callResults[key]; ok {
-				return e.fr.val(v)
+				rv := e.fr.val(v)
+				if len(x.Args) == 3 && rv.Tuple != nil {
+					var k int
+					fmt.Sscanf(exprText2(x.Args[2]), "%d", &k)
+					if k < len(rv.Tuple) {
+						return rv.Tuple[k]
+					}
+				}
+				return rv
 			}
 		}
 		return e.fail("res(): no such call %s", exprText(x.Args[0]))
@@ -478,7 +549,8 @@ func (e *SpecEnv) call(x *ast.CallExpr) *Val {
 			}
 			vars[pd.Name] = v
 		}
-		n := &SpecEnv{fr: e.fr, vars: vars, cur: e.cur, old: e.old, pkg: e.pkgOf(p.Pkg), errs: e.errs, depth: e.depth + 1}
+		n := &SpecEnv{fr: e.fr, vars: vars, cur: e.cur, old: e.old, pkg: e.pkgOf(p.Pkg), errs: e.errs, depth: e.depth + 1,
+			bound: e.bound, iterElem: e.iterElem, iterCount: e.iterCount, callArgs: e.callArgs, atCallSite: e.atCallSite, skip: e.skip}
 		return n.eval(p.Body.Expr)
 	}
 	if sf, ok := u.C.Specs[fname]; ok {
@@ -579,6 +651,10 @@ func (e *SpecEnv) quant(kind string, x0 *ast.CallExpr) *Val {
 		hi := e.eval(x.Args[2])
 		bv := "q!" + id.Name
 		n := e.with(map[string]*Val{id.Name: {T: mathInt, S: bv, Math: true}})
+		n.bound = map[string]string{bv: "Int"}
+		for k, v := range e.bound {
+			n.bound[k] = v
+		}
 		body := n.eval(x.Args[3])
 		rng := fmt.Sprintf("(and (<= %s %s) (< %s %s))", lo.S, bv, bv, hi.S)
 		if kind == "forall" {
@@ -616,6 +692,13 @@ func (e *SpecEnv) quant(kind string, x0 *ast.CallExpr) *Val {
 			}
 		}
 		n := e.with(vars)
+		n.bound = map[string]string{}
+		for k, v := range e.bound {
+			n.bound[k] = v
+		}
+		for _, v := range vars {
+			n.bound[v.S] = e.sortOfType(v.T)
+		}
 		body := n.eval(x.Args[len(x.Args)-1])
 		g := and(guards...)
 		if kind == "forall" {
@@ -669,4 +752,19 @@ func (e *SpecEnv) opaquePred(p *PredDef, x *ast.CallExpr) *Val {
 		u.defs = append(u.defs, taggedDef{pred: p.Name, formula: def})
 	}
 	return &Val{T: boolT, S: app(name, args...)}
+}
+
+// containsIdent: the SMT symbol id occurs in s as a whole token.
+func containsIdent(s, id string) bool {
+	for i := 0; ; {
+		j := strings.Index(s[i:], id)
+		if j < 0 {
+			return false
+		}
+		end := i + j + len(id)
+		if end >= len(s) || strings.ContainsRune(" )", rune(s[end])) {
+			return true
+		}
+		i = end
+	}
 }
